@@ -38,6 +38,27 @@ Theorem C06_attach_without_lock_refuted : exists sched nthreads, ~ NoDup (names_
 Proof. exact unlocked_names_collide. Qed.
 Print Assumptions C06_attach_without_lock_refuted.
 
+(* ... and over the whole life of an attachment (prepare_attachment is a context manager: Reserve on entering the block, Commit
+   when it ends normally -- the event is fired --, Abandon when user code raises inside it): for every sequence of these
+   operations by any threads, nested or interleaved, every number is handed out once, the report never references one
+   number twice and references only numbers that were handed out *)
+Theorem C06_attachment_blocks_never_share_a_name : forall ops : list aop,
+  NoDup (b_all (brun ops)) /\ NoDup (b_refs (brun ops)) /\ incl (b_refs (brun ops)) (b_all (brun ops)).
+Proof. exact block_names_distinct. Qed.
+Print Assumptions C06_attachment_blocks_never_share_a_name.
+
+(* ... which needs the counter to grow only: if a block that fails gave its number back, two attachments of the report would
+   be one file *)
+Theorem C06_abandoned_block_giving_its_number_back_refuted : exists ops, ~ NoDup (b_refs (brun_giveback ops)).
+Proof. exact giveback_collides. Qed.
+Print Assumptions C06_abandoned_block_giving_its_number_back_refuted.
+
+(* non-vacuity: nested and interleaved blocks, one of them abandoned *)
+Example C06_attachment_blocks_witness :
+  let s := brun [Reserve 0; Reserve 1; Reserve 0; Commit 0; Abandon 0; Commit 1; Reserve 2; Commit 2] in
+  b_all s = [1; 2; 3; 4] /\ b_refs s = [3; 2; 4] /\ b_open s = [].
+Proof. vm_compute. auto. Qed.
+
 (* ---- the report writer (Model/Writer.v = reporting/writer.py ReportWriter, tied to the code by C18's correspondence) ----
    "recorded in that test's own result, inside the step that was current in the emitting thread ... and never in the result
    of another test": for ANY event stream the writer accepts (no hypothesis on the stream at all). *)
